@@ -444,7 +444,31 @@ fn list_inhabited(
 
             let diff = items.diff(&nt.items)?;
             if let IsEmptyStatus::NotEmpty = diff.is_empty_status(builder)? {
-                return Ok(ListInhabited::Yes);
+                // A list with an element after the prefix that is not in `nt.items` is not in `nt`,
+                // but it still has to avoid the remaining negated tuples. Positions after the longest
+                // remaining prefix are interchangeable, so trying up to that position is enough.
+                let mut max_len = len;
+                let mut rest = neg.next.clone();
+                while let Some(n) = rest {
+                    let n_len = match n.atom {
+                        Atom::List(a) => builder.get_list_atomic(a).prefix_items.len(),
+                        Atom::Set(a) => builder.get_set_atomic(a).prefix_items.len(),
+                        _ => unreachable!(),
+                    };
+                    max_len = max_len.max(n_len);
+                    rest = n.next.clone();
+                }
+                let mut s = prefix_items.clone();
+                for _j in len..=max_len {
+                    s.push(diff.clone());
+                    if let ListInhabited::Yes =
+                        list_inhabited(&mut s.clone(), items, &neg.next, builder)?
+                    {
+                        return Ok(ListInhabited::Yes);
+                    }
+                    s.pop();
+                    s.push(items.clone());
+                }
             }
 
             // This is correct for length 0, because we know that the length of the
